@@ -1,4 +1,5 @@
 """Shared inventory of the parser state (template caches) and of every access to it."""
+import re
 from .common import *
 
 PARSER_ADTS = ("variable_versions::v9::V9Parser", "variable_versions::ipfix::IPFixParser")
@@ -182,8 +183,16 @@ class CacheAccess:
                                 self.violations.append((b, b.line(u[1]), "parser-ref-escapes", "&mut parser %s" % u[2]))
                 # moves out of cache fields
                 for o in rv_operands(rv):
-                    if o.get("k") == "move" and place_cache_field(o["place"], cf):
+                    # (moving a map out of an owned, local parser value - `Self { x, ..Self::default() }` - is how a
+                    # constructor builds a new parser; constructing parsers on the parse path is R6.5's business)
+                    if o.get("k") == "move" and place_cache_field(o["place"], cf) and any(e.get("k") == "deref" for e in o["place"].get("p", [])):
                         self.violations.append((b, site(s["span"]), "move-out", "cache map moved out"))
+
+    def _off_path(self, b):
+        if not hasattr(self, "_on_path"):
+            self._on_path = set(reach_bodies(self.prog, ALL_ROOTS).keys())
+        root = re.sub(r"(::\{closure#\d+\})+$", "", b.path)
+        return root not in self._on_path and b.path not in self._on_path
 
     def _classify(self, b, hit, mut, u, s, depth=0):
         if u[0] == "call":
@@ -213,6 +222,11 @@ class CacheAccess:
                 hb = self.prog.bodies[c.path]
                 for uu in follow_mut_ref(hb, ai + 1):
                     self._classify(hb, hit, mut, uu, s, depth + 1)
+            elif not mut and c is not None and not c.local and self._off_path(b):
+                # a shared borrow in a function the parse / export / conversion roots never reach (`template_count()`,
+                # `has_template()`, a hand-written `PartialEq`): inspecting the cache there cannot influence decoding
+                rec["kind"] = "inspection"
+                self.reads.append(rec)
             else:
                 self.violations.append((b, b.line(blk), "%s-via:%s" % ("mutation" if mut else "access", nm),
                                         "cache map %s.%s %s passed to %s — not an allowed accessor (insert/extend for writes; contains_key/get for reads)"
@@ -290,4 +304,57 @@ def extra_state_writes(prog, bodies):
                 for e in t["dest"]["p"]:
                     if e["k"] == "field" and (e.get("adt"), e.get("name")) in out:
                         out[(e["adt"], e["name"])]["writes"].append((b.path, b.line(blk), "call-result"))
+    for key, info in out.items():
+        info["sink"] = bool(info["writes"]) and diagnostic_sink(prog, bodies, key)
     return out
+
+
+def _mentions_field(x, key, acc):
+    """All place dicts (anywhere in a statement / terminator) whose projection goes through field `key`."""
+    if isinstance(x, dict):
+        if "l" in x and isinstance(x.get("p"), list) and any(e.get("k") == "field" and (e.get("adt"), e.get("name")) == key for e in x["p"]):
+            acc.append(x)
+        for v in x.values():
+            _mentions_field(v, key, acc)
+    elif isinstance(x, list):
+        for v in x:
+            _mentions_field(v, key, acc)
+
+
+def diagnostic_sink(prog, bodies, key):
+    """The field is a write-only diagnostics sink on the parse path (packet counters, a last-error slot): every
+    access to it there is `&mut parser.<field>` handed as the receiver to a crate function that returns `()` and
+    takes no other `&mut` - a function that can change nothing but the sink itself - and the field is never read.
+    Such state cannot influence what is decoded, reported or cached, whatever its history."""
+    n = 0
+    for b in bodies.values():
+        if b.derived:
+            continue
+        for blk in sorted(b.live_blocks()):
+            bj = b.blocks[blk]
+            for s in bj["stmts"]:
+                acc = []
+                _mentions_field(s, key, acc)
+                if not acc:
+                    continue
+                n += len(acc)
+                if not (s["k"] == "assign" and s["rv"]["k"] == "ref" and s["rv"].get("bk", "mut") == "mut" and len(acc) == 1 and acc[0] is s["rv"]["place"]
+                        and s["rv"]["place"]["p"][-1].get("k") == "field" and (s["rv"]["place"]["p"][-1].get("adt"), s["rv"]["place"]["p"][-1].get("name")) == key
+                        and not s["place"].get("p")):
+                    return False
+                for kind, ub, d in uses_of_local(b, s["place"]["l"]):
+                    if kind != "callarg":
+                        return False
+                    t, ai = d
+                    fn = t["func"].get("fn") if t["func"].get("k") == "const" else None
+                    c = Callee(fn) if fn else None
+                    cb = prog.bodies.get(c.path) if c is not None and c.local else None
+                    if ai != 0 or cb is None or cb.local_ty(0) != "()" or t["dest"].get("p"):
+                        return False
+                    if any(str(ty).startswith("&mut") or "&mut " in str(ty) for ty in (t.get("argtys") or [])[1:]):
+                        return False
+            acc = []
+            _mentions_field(bj["term"], key, acc)
+            if acc:
+                return False
+    return n > 0
